@@ -87,13 +87,17 @@ func TestVerif_C12(t *testing.T) {
 		{0, 0, []rel{{"root-is-owner", 0, 0, nil}, {"root-is-owner-other-gid", 0, 999, nil}, {"group-of-root-owned", 101, 0, nil}, {"aux-group-of-root-owned", 101, 999, []uint32{0}}, {"other-of-root-owned", 101, 999, []uint32{5}}}},
 	}
 	decisions := 0
+	nSrv := 0
 	for _, oc := range cfgs {
 		fuid, fgid, rels := oc.fuid, oc.fgid, oc.rels
 		for _, ro := range []bool{false, true} {
 			fs := refs.New()
 			fs.PlantFile("/f", []byte("x"), 0, int(fuid), int(fgid))
 			fs.PlantDir("/d", 0, int(fuid), int(fgid))
-			srv, err := vfNewSrv(fs, ExportOptions{AttrCacheTimeout: 1, ReadOnly: ro, Squash: "none"})
+			// no squashing, in each spelling the constructor accepts for it
+			spell := []string{"none", "None", "", "NONE"}[nSrv%4]
+			nSrv++
+			srv, err := vfNewSrv(fs, ExportOptions{AttrCacheTimeout: 1, ReadOnly: ro, Squash: spell})
 			if err != nil {
 				rec.Infra(err.Error())
 				return
